@@ -629,6 +629,13 @@ func runSUB(r *core.Run) {
 	// whoever is still subscribed is ended by shutting the resolver down
 	if out == core.OutIdle || out == core.OutDone {
 		if e.shutdown == 0 {
+			// before the shutdown cleans everything up: a trigger whose start-up failed must be gone
+			// by now (its context cancelled), also when somebody joined it while it was failing
+			for _, in := range e.instances {
+				if in.startFail && in.ctx.Context().Err() == nil {
+					r.Fail("C13", "trigger-context-leaked", "after-start-failure", "the Start of source instance i%d (key %v) failed, everything has settled, and its trigger context is still not cancelled (the trigger was not torn down)", in.idx, in.key)
+				}
+			}
 			e.doShutdown(rootCancel)
 		}
 		r.SimDeadline = r.Now() + 20*time.Second
